@@ -16,6 +16,7 @@ package main
 //	ALIGN <ms>       sleep until the clock's millisecond-within-the-second equals <ms>
 //	@T+<n> / @T-<n>  as an argument: replaced by the decimal unix time (seconds) at the moment the
 //	                 command is issued plus/minus n (the substituted bytes appear in the trace)
+//	@X+<n> / @X-<n>  likewise MaxInt64 - (unix time) plus/minus n: the overflow boundary of relative times
 //
 // and every connection id of a case is a connection of its own:
 //
@@ -231,9 +232,13 @@ func memxCmd(args []string) error {
 		cmd := make([][]byte, 0, len(fs)-3)
 		hexargs := make([]string, 0, len(fs)-3)
 		for _, h := range fs[3:] {
-			if strings.HasPrefix(h, "@T") {
+			if strings.HasPrefix(h, "@T") || strings.HasPrefix(h, "@X") {
 				off, _ := strconv.ParseInt(h[2:], 10, 64)
-				b := []byte(strconv.FormatInt(now.Unix()+off, 10))
+				base := now.Unix()
+				if h[1] == 'X' {
+					base = 9223372036854775807 - now.Unix() // the largest relative time that does not overflow the clock
+				}
+				b := []byte(strconv.FormatInt(base+off, 10))
 				cmd = append(cmd, b)
 				hexargs = append(hexargs, hx(b))
 			} else {
